@@ -50,6 +50,9 @@
 /* examples/common/common.c is compiled in here with its socket creators renamed; the names the
  * examples call are defined below as stubs (the headers have no include guards, so they cannot be
  * hidden behind macros). */
+static int x_capture_stdout;                      /* queue mode of the stream listeners: what present_data() writes is an observation */
+static ssize_t x_write_common(int fd, const void* buf, size_t n);
+#define write x_write_common
 #define create_listener_socket_udp real_create_listener_socket_udp
 #define create_listener_socket real_create_listener_socket
 #define create_talker_socket_udp real_create_talker_socket_udp
@@ -57,6 +60,7 @@
 #define setup_udp_socket_address real_setup_udp_socket_address
 #define setup_socket_address real_setup_socket_address
 #include "common/common.c"
+#undef write
 #undef create_listener_socket_udp
 #undef create_listener_socket
 #undef create_talker_socket_udp
@@ -81,6 +85,17 @@ static void x_sayhex(const char* tag, const void* p, size_t n)
     b[k++] = '\n';
     if (x_report >= 0) { ssize_t w = write(x_report, b, k); (void)w; }
     free(b);
+}
+static ssize_t x_write_common(int fd, const void* buf, size_t n)
+{
+    if (fd == STDOUT_FILENO && x_capture_stdout) { x_sayhex("W", buf, n); return (ssize_t)n; }
+    return write(fd, buf, n);
+}
+static ssize_t x_read_timer(int fd, void* buf, size_t n)        /* timeout() reads the number of expirations from its timerfd */
+{
+    (void)fd; uint64_t one = 1;
+    if (n >= sizeof one) { memcpy(buf, &one, sizeof one); return (ssize_t)sizeof one; }
+    return -1;
 }
 static jmp_buf x_end; static int x_end_armed;
 /* datagram source for every listener */
@@ -184,15 +199,23 @@ static int x_handle(int* m) { use_udp = (uint8_t)m[0]; can_variant = m[1] ? AVTP
 #undef clock_nanosleep
 #define XH_STREAM_TALKER 1
 #elif defined(XH_CVF_LISTENER)
+#define read x_read_timer
 #include "cvf/cvf-listener.c"
+#undef read
 #define XH_LISTENER 1
+#define XH_QUEUE 1
 static int x_tfd = -1;
 static int x_handle(int* m) { (void)m; if (x_tfd < 0) { x_tfd = timerfd_create(CLOCK_REALTIME, 0); STAILQ_INIT(&nals); } return new_packet(X_NET_FD, x_tfd); }
+static int x_timeout(void) { return timeout(x_tfd); }
 #elif defined(XH_AAF_LISTENER)
+#define read x_read_timer
 #include "aaf/aaf-listener.c"
+#undef read
 #define XH_LISTENER 1
+#define XH_QUEUE 1
 static int x_tfd = -1;
 static int x_handle(int* m) { (void)m; if (x_tfd < 0) { x_tfd = timerfd_create(CLOCK_REALTIME, 0); STAILQ_INIT(&samples); } return new_packet(X_NET_FD, x_tfd); }
+static int x_timeout(void) { return timeout(x_tfd); }
 #elif defined(XH_CRF_LISTENER)
 #include "crf/crf-listener.c"
 #define XH_LISTENER 1
@@ -245,12 +268,37 @@ static void child(char** tok, int nt)
     if (devnull >= 0) { dup2(devnull, 1); }
 #if defined(XH_LISTENER)
     (void)nt;
+#if defined(XH_QUEUE)
+    /* queue mode (m[2] = 1): a zero-length token is a timer expiration; stdout of present_data() and the number of
+     * "Sequence number mismatch" diagnostics per datagram are observations */
+    FILE* ef = NULL; int saved2 = -1; long eoff = 0;
+    if (m[2] == 1) { x_capture_stdout = 1; ef = tmpfile(); saved2 = dup(2); if (ef) dup2(fileno(ef), 2); }
+#endif
     for (int i = 0; i < x_nd; i++) {
         int before = x_cur;
-        int r = x_handle(m);
+        int r;
+#if defined(XH_QUEUE)
+        if (m[2] == 1 && x_len[i] == 0) { x_cur = i + 1; r = x_timeout(); x_say("D %d %d\n", i, r); continue; }
+#endif
+        r = x_handle(m);
         if (x_cur == before) x_cur = before + 1;         /* handler did not even read: count it as consumed */
+#if defined(XH_QUEUE)
+        if (ef) {
+            fflush(stderr);
+            static char eb[1 << 16]; int cnt = 0;
+            fseek(ef, eoff, SEEK_SET); size_t k = fread(eb, 1, sizeof eb - 1, ef); eb[k] = 0; eoff += (long)k;
+            for (char* q_ = eb; (q_ = strstr(q_, "Sequence number mismatch")) != NULL; q_++) cnt++;
+            x_say("E E%d\n", cnt);
+        }
+#endif
         x_say("D %d %d\n", i, r);
     }
+#if defined(XH_QUEUE)
+    if (ef && saved2 >= 0) {          /* hand the diagnostics (and sanitizer reports) on to the real stderr */
+        fflush(stderr); static char eb2[1 << 16]; size_t k; fseek(ef, 0, SEEK_SET);
+        while ((k = fread(eb2, 1, sizeof eb2, ef)) > 0) { ssize_t w = write(saved2, eb2, k); (void)w; }
+    }
+#endif
 #elif defined(XH_MAINLOOP)
     (void)nt;
     x_modes(m);
@@ -315,7 +363,7 @@ int main(void)
             if (ln[0] == 'D') { int i, r; sscanf(ln + 2, "%d %d", &i, &r); done = i + 1; rl += (size_t)snprintf(rets + rl, sizeof rets - rl, "%s%d", rl ? "," : "", r); outs[ol++] = '|'; }
             else if (ln[0] == 'M') { int i, r; sscanf(ln + 2, "%d %d", &i, &r); done = i; rl += (size_t)snprintf(rets + rl, sizeof rets - rl, "%s%d", rl ? "," : "", r); }
             else if (ln[0] == 'I') { size_t l = strlen(ln + 2); if (ol && outs[ol - 1] != '|' ) outs[ol++] = ','; outs[ol++] = 'i'; memcpy(outs + ol, ln + 2, l); ol += l; }
-            else if (ln[0] == 'W' || ln[0] == 'P') { size_t l = strlen(ln + 2); if (ol && outs[ol - 1] != '|' ) outs[ol++] = ','; memcpy(outs + ol, ln + 2, l); ol += l; }
+            else if (ln[0] == 'W' || ln[0] == 'P' || ln[0] == 'E') { size_t l = strlen(ln + 2); if (ol && outs[ol - 1] != '|' ) outs[ol++] = ','; memcpy(outs + ol, ln + 2, l); ol += l; }
         }
         outs[ol] = 0;
         printf("%d %s %s\n", done, rl ? rets : "-", ol ? outs : "-");
